@@ -230,7 +230,46 @@ def arrpoly_fails(case):
     return None
 
 
+# ---- two tensor computations interleaved: seed A, seed B, extract A, extract B ---------------------------------
+def interleave_case(rng, tier):
+    (NA, dA), (NB, dB) = rng.choice([((3, 3), (4, 2)), ((4, 2), (3, 3)), ((2, 3), (4, 1)), ((2, 2), (3, 1)), ((1, 2), (1, 3)),
+                                     ((1, 4), (1, 2)), ((2, 2), (2, 3)), ((3, 2), (2, 2))])
+
+    def mk(N):
+        return ([(rng.randint(-3, 3) or 1, [rng.randint(0, 3) for _ in range(N)]) for _ in range(rng.randint(1, 3))],
+                [rng.randint(-2, 2) for _ in range(N)])
+    tA, xA = mk(NA)
+    tB, xB = mk(NB)
+    return {'op': 'interleave', 'A': {'N': NA, 'd': dA, 'terms': tA, 'x': xA}, 'B': {'N': NB, 'd': dB, 'terms': tB, 'x': xB}}
+
+
+def interleave_fails(case):
+    import algopy.exact_interpolation as ei
+    A, B = case['A'], case['B']
+
+    def f(terms, N):
+        return lambda x: peval(terms, [x[i] for i in range(N)]) + 0 * x[0]
+
+    def want(P_):
+        mi = ei.generate_multi_indices(P_['N'], P_['d'])
+        return np.array([float(exact_partial(P_['terms'], P_['x'], tuple(int(a) for a in al)) / math.prod(math.factorial(int(a)) for a in al)) for al in mi])
+    try:
+        yA = f(A['terms'], A['N'])(UTPM.init_tensor(A['d'], np.asarray(A['x'], dtype=float)))
+        yB = f(B['terms'], B['N'])(UTPM.init_tensor(B['d'], np.asarray(B['x'], dtype=float)))
+        TA = UTPM.extract_tensor(A['N'], yA, as_full_matrix=False)
+        TB = UTPM.extract_tensor(B['N'], yB, as_full_matrix=False)
+    except Exception as ex:
+        return 'interleave-exception: %s' % (type(ex).__name__ + ':' + str(ex)[:100])
+    if not close(np.ravel(TA), want(A), 1e-8):
+        return 'interleave-tensor: extract_tensor for (N=%d, d=%d) is wrong when another problem (N=%d, d=%d) was seeded in between' % (A['N'], A['d'], B['N'], B['d'])
+    if not close(np.ravel(TB), want(B), 1e-8):
+        return 'interleave-tensor: extract_tensor for (N=%d, d=%d) is wrong after extracting (N=%d, d=%d)' % (B['N'], B['d'], A['N'], A['d'])
+    return None
+
+
 def replay_case(ctx, case):
+    if case.get('op') == 'interleave':
+        return interleave_fails(case)
     if case.get('op') == 'arrpoly':
         return arrpoly_fails(case)
     if case.get('op') == 'poly':
@@ -263,6 +302,17 @@ def run(ctx):
         if len(ctx.samples) < 2 and case['N'] >= 2:
             ctx.samples.append(case)
         f = poly_fails(case)
+        if f:
+            ctx.report(case, 'failure', f)
+    for i in range(40 if ctx.tier == 'quick' else 400):
+        case = interleave_case(rng, ctx.tier)
+        ctx.evaluations += 1
+        ctx.count('interleave')
+        h = canon_hash(case)
+        if h not in ctx.hashes:
+            ctx.hashes.add(h)
+            ctx.nontrivial += 1
+        f = interleave_fails(case)
         if f:
             ctx.report(case, 'failure', f)
     for i in range(60 if ctx.tier == 'quick' else 800):
